@@ -75,7 +75,7 @@ func Build(evs []Ev, revertText string) (*Node, error) {
 		case TxStart:
 			gasLimit = e.Gas
 		case Start:
-			if (root != nil && !pending) || len(stack) != 0 {
+			if (root != nil && !pending) || (len(stack) != 0 && !pending) {
 				return nil, fmt.Errorf("event %d: second Start", i)
 			}
 			typ := byte(0xf1)
@@ -90,7 +90,7 @@ func Build(evs []Ev, revertText string) (*Node, error) {
 			} else {
 				root = &Node{Typ: typ, From: e.From, To: e.To, Input: e.Input, Gas: gasLimit}
 			}
-			stack = append(stack, root)
+			stack = append(stack[:0], root)
 		case Enter:
 			if len(stack) == 0 {
 				return nil, fmt.Errorf("event %d: Enter outside Start", i)
@@ -135,9 +135,11 @@ func Build(evs []Ev, revertText string) (*Node, error) {
 				root = &Node{}
 				pending = true
 				top = root
+				stack = append(stack, root) // (calls made by such an Aspect nest under it)
 			default:
 				// before the top-level frame (again) or after it ended: transaction-level join points
 				top = root
+				stack = append(stack, root)
 			}
 			if top.running != nil {
 				return nil, fmt.Errorf("event %d: Aspect entered while another runs at the same frame", i)
